@@ -26,7 +26,6 @@ MUAS = float(np.radians(1e-6 / 3600.0))          # one micro-arcsecond in radian
 REL = 1e-6
 FLOOR = 3e-13
 NODE = 95.0
-UNIT_NAMES = {0: 'rad', 1: 'hour', 2: 'deg'}
 DECADES = list(range(-12, 1))
 
 
@@ -568,7 +567,6 @@ class C18(Check):
         stripe = int(case['stripe'])
         api = bool(case.get('frame_api'))
         incl = self._stripe_definition(stripe, out)
-        nq = None
         # ---------------- ICRS -> (mu, nu) -> ICRS
         ra, dec = f64(case['icrs']['lon']), f64(case['icrs']['lat'])
         n2 = ra.size
@@ -647,6 +645,22 @@ class C18(Check):
                       mu=mu[a], nu=nu[a], mu_b=mu[bb], nu_b=nu[bb], ra=ra[a], dec=dec[a], ra_b=ra[bb], dec_b=dec[bb])
         out.count('munu_points_bw', n2)
         out.count('munu_icrs_pole_points', int((cdec < 1e-6).sum()))
+        # scalar coordinates (not arrays) through the same transforms
+        for j in (0, n):
+            sm = self._to_munu(f64(case['icrs']['lon'])[j], f64(case['icrs']['lat'])[j], stripe, api)
+            sb = self._to_icrs(mu[j], nu[j], stripe, api)
+            smu, snu, sra, sdec = (np.asarray(t, dtype=np.float64) for t in (sm.mu.deg, sm.nu.deg, sb.ra.deg, sb.dec.deg))
+            ok = smu.ndim == 0 and snu.ndim == 0 and sra.ndim == 0 and sdec.ndim == 0
+            if out.expect(ok, 'shape', 'scalar coordinate gave array result'):
+                vf = S.munu_model_inv(f64(case['icrs']['lon'])[j], f64(case['icrs']['lat'])[j], incl, NODE)
+                e1 = float(S.sep_vec(self._v(smu, snu, NODE), vf))
+                e2 = float(S.sep_vec(self._v(sra, sdec), vmod[j]))
+                t1 = float(tol_pos(float(np.sqrt(vf[0] ** 2 + vf[1] ** 2))))
+                out.expect(e1 <= t1 and e2 <= float(tbw[j]), 'rotation-model',
+                           'scalar transform differs from the rotation model: %.3g / %.3g rad' % (e1, e2), stripe=stripe,
+                           ra=float(f64(case['icrs']['lon'])[j]), dec=float(f64(case['icrs']['lat'])[j]), mu=float(mu[j]), nu=float(nu[j]))
+            out.count('munu_scalar_transforms', 2)
+        out.count('munu_frame_api_cases' if api else 'munu_skycoord_cases')
         out.count('munu_frame_pole_points', int((np.abs(nu) == 90.0).sum()))
         out.nontrivial = incl != 0.0
         out.info.update(stripe=stripe, incl=incl, points=int(ra.size + mu.size), frame_api=api)
